@@ -875,3 +875,139 @@ Proof.
       * rewrite E1. cbn [fst]. apply Sa. cbn [length] in Hi. lia.
     + intros _ Hne. exists dh. split; [exact D1|exact (D2 Hne)].
 Qed.
+
+(* ================= non-vacuity: a complete board ================= *)
+(* 4S by South; West leads.  Trick 1: H2 H9, East ruffs with S2, South over-ruffs with S5. *)
+Fixpoint nodupb (l : list card) : bool :=
+  match l with [] => true | x :: r => negb (has_card r x) && nodupb r end.
+Lemma nodupb_sound l : nodupb l = true -> NoDup l.
+Proof.
+  induction l as [|x r IH]; intros H; [constructor|]. cbn [nodupb] in H.
+  apply andb_true_iff in H. destruct H as [H1 H2]. constructor; [|apply IH; exact H2].
+  intros Hin. apply has_card_In in Hin. rewrite Hin in H1. discriminate.
+Qed.
+Definition disjoint_dealb (deal : seat -> list card) : bool :=
+  forallb (fun p => nodupb (deal p)) all_seats &&
+  forallb (fun p => forallb (fun q => seat_beq p q || forallb (fun c => negb (has_card (deal q) c)) (deal p)) all_seats) all_seats.
+Lemma all_seats_complete p : In p all_seats.
+Proof. destruct p; cbn; tauto. Qed.
+Lemma disjoint_dealb_sound deal : disjoint_dealb deal = true -> disjoint_deal deal.
+Proof.
+  unfold disjoint_dealb. intros H. apply andb_true_iff in H. destruct H as [H1 H2].
+  rewrite forallb_forall in H1, H2. split.
+  - intros p. apply nodupb_sound. apply H1. apply all_seats_complete.
+  - intros p q c Hpq Hp Hq. specialize (H2 p (all_seats_complete p)). rewrite forallb_forall in H2.
+    specialize (H2 q (all_seats_complete q)). apply orb_true_iff in H2. destruct H2 as [H2|H2].
+    + apply seat_beq_true in H2. contradiction.
+    + rewrite forallb_forall in H2. specialize (H2 c Hp). apply has_card_In in Hq. rewrite Hq in H2. discriminate.
+Qed.
+
+Definition ex_k : contract := mkcontract (Some (L4, Tr Sp)) false false VNone (Some South).
+Definition ex_deal (p : seat) : list card :=
+  map cn match p with
+         | West => [26;27;28;29;30;31;32; 0;1;2;3;4;5]
+         | North => [33;34;35;36;37;38; 6;7;8;9;10;11;12]
+         | East => [39;40;41;46; 13;14;15;16;17;18;19;20;21]
+         | South => [42;43;44;45;47;48;49;50;51; 22;23;24;25] end.
+Definition ex_ops : list (card * seat) :=
+  map (fun x => (cn (fst x), sn (snd x)))
+    [(26, 3); (33, 0); (39, 1); (42, 2);   (43, 2); (27, 3); (34, 0); (40, 1);
+     (44, 2); (28, 3); (35, 0); (41, 1);   (45, 2); (29, 3); (36, 0); (46, 1);
+     (13, 1); (22, 2); (30, 3); (37, 0);   (47, 2); (31, 3); (38, 0); (14, 1);
+     (48, 2); (32, 3); (6, 0); (15, 1);    (49, 2); (0, 3); (7, 0); (16, 1);
+     (50, 2); (1, 3); (8, 0); (17, 1);     (51, 2); (2, 3); (9, 0); (18, 1);
+     (23, 2); (3, 3); (10, 0); (19, 1);    (24, 2); (4, 3); (11, 0); (20, 1);
+     (25, 2); (5, 3); (12, 0); (21, 1)].
+
+Example ex_deal_ok : disjoint_deal ex_deal /\ forall p, length (ex_deal p) = 13.
+Proof.
+  split; [apply disjoint_dealb_sound; vm_compute; reflexivity|]. intros []; reflexivity.
+Qed.
+(* the ruff and the over-ruff, judged by the Laws: spades are trumps, the S5 (fourth card) beats the S2 *)
+Example ex_overruff :
+  let four := [mkcard R2 He; mkcard R9 He; mkcard R2 Sp; mkcard R5 Sp] in
+  winner (Tr Sp) four = 3 /\ winner_idx (Tr Sp) four = 3 /\
+  eligible (Tr Sp) four (mkcard R9 He) = false /\ eligible (Tr Sp) four (mkcard R2 Sp) = true /\
+  winner (Tr Sp) [mkcard R2 He; mkcard R9 He; mkcard R2 Sp] = 2 /\ winner NT four = 1.
+Proof. vm_compute. repeat split; reflexivity. Qed.
+
+Example ex_board : exists s0, init_hands ex_k ex_deal = Some s0 /\
+  length ex_ops = 52 /\ accepted_ops s0 ex_ops = ex_ops /\
+  let e := runh s0 ex_ops in
+  phase_done (hbase e) = true /\ length (tricks (hbase e)) = 13 /\
+  (forall p, hands e p = []) /\
+  nth_error (tricks (hbase e)) 0 = Some (West, [mkcard R2 He; mkcard R9 He; mkcard R2 Sp; mkcard R5 Sp]) /\
+  option_map fst (nth_error (tricks (hbase e)) 1) = Some South /\
+  nth_error (tricks (hbase e)) 4 = Some (East, [mkcard R2 Di; mkcard RJ Di; mkcard R6 He; mkcard RK He]) /\
+  taken_ns (hbase e) = 12 /\ taken_ew (hbase e) = 1 /\
+  phase_done (hbase (runh s0 (firstn 51 ex_ops))) = false.
+Proof.
+  eexists. split; [reflexivity|]. split; [reflexivity|]. split; [vm_compute; reflexivity|].
+  cbv zeta. split; [vm_compute; reflexivity|]. split; [vm_compute; reflexivity|].
+  split; [intros []; vm_compute; reflexivity|].
+  vm_compute. repeat split; reflexivity.
+Qed.
+(* refusals: out of turn, card not held; and the bare environment accepts a revoke *)
+Example ex_refusals : exists s0, init_hands ex_k ex_deal = Some s0 /\
+  snd (play_by s0 (cn 33) North) = PRaises /\ snd (play_by s0 (cn 33) West) = PRaises /\
+  snd (play_by s0 (cn 26) West) = POk /\
+  accepted_ops s0 [(cn 33, North); (cn 33, West); (cn 26, West); (cn 26, West); (cn 6, North)]
+    = [(cn 26, West); (cn 6, North)].
+Proof. eexists. split; [reflexivity|]. vm_compute. repeat split; reflexivity. Qed.
+(* the observer theorem applies to this board: its hypothesis holds for every prefix *)
+Example ex_observer_hyp : exists s0, init_hands ex_k ex_deal = Some s0 /\
+  forall i, i < length ex_ops ->
+    snd (play_by (runh s0 (firstn i ex_ops)) (fst (nth i ex_ops (cn 0, North))) (snd (nth i ex_ops (cn 0, North)))) = POk.
+Proof.
+  eexists. split; [reflexivity|]. intros i Hi. change (length ex_ops) with 52 in Hi.
+  do 52 (destruct i as [|i]; [vm_compute; reflexivity|]). lia.
+Qed.
+
+(* ... and, computed directly, each of the four observers ends in agreement with the full game
+   (dummy's own copy of the dummy hand is not maintained: dummy plays from ohand) *)
+Example ex_observer_run : forall me, exists s0 o0, init_hands ex_k ex_deal = Some s0 /\
+  init_obs ex_k me (ex_deal me) = Some o0 /\
+  let dc := hands (runh s0 (firstn 1 ex_ops)) (dummy (hbase s0)) in
+  let o := orun dc o0 ex_ops in
+  public (obase o) = public (hbase (runh s0 ex_ops)) /\ ohand o = [] /\
+  (if seat_beq me (dummy (hbase s0)) then True else odummy o = Some []) /\
+  ohand (orun dc o0 (firstn 5 ex_ops)) = hands (runh s0 (firstn 5 ex_ops)) me.
+Proof.
+  intros me. eexists. eexists. split; [reflexivity|]. split; [reflexivity|].
+  destruct me; vm_compute; repeat split; reflexivity.
+Qed.
+
+Print Assumptions opening.
+Print Assumptions winner_idx_wins.
+Print Assumptions wins_unique.
+Print Assumptions winner_idx_is_spec_winner.
+Print Assumptions calc_highest_spec.
+Print Assumptions calc_highest_NT.
+Print Assumptions counters.
+Print Assumptions history_is_the_cards.
+Print Assumptions mid_trick_step.
+Print Assumptions trick_done_step.
+Print Assumptions thirteen_tricks.
+Print Assumptions not_done_before_52.
+Print Assumptions recorded_leaders.
+Print Assumptions available_spec.
+Print Assumptions available_leading.
+Print Assumptions available_nonempty.
+Print Assumptions available_subset.
+Print Assumptions available_follow.
+Print Assumptions available_void.
+Print Assumptions current_available_is_available.
+Print Assumptions choice_in_set.
+Print Assumptions play_by_accept_iff.
+Print Assumptions play_by_refused_noop.
+Print Assumptions play_by_accepted_effect.
+Print Assumptions partition_invariant.
+Print Assumptions used_cards_are_played.
+Print Assumptions empty_at_52.
+Print Assumptions observer_agrees.
+Print Assumptions ex_deal_ok.
+Print Assumptions ex_overruff.
+Print Assumptions ex_board.
+Print Assumptions ex_refusals.
+Print Assumptions ex_observer_hyp.
+Print Assumptions ex_observer_run.
